@@ -438,7 +438,7 @@ def execute(desc, ctx):
 
     for enc in ('binary', 'kv2'):
         data = encode(root, enc, desc['fmt_ver'])
-        if desc['direct_io'] and enc == 'binary':
+        if desc['direct_io']:
             parsed = Particle.parse(io.BytesIO(data))
         else:
             root_b, fmt_name, fmt_ver = Element.parse(io.BytesIO(data))
@@ -558,7 +558,7 @@ def fixed(tier):
 
 
 SUBS = [
-    Sub('particles_roundtrip', execute, strategy=strategy, fixed=fixed, quick=600, thorough=15000, floor=100, quick_shards=16,
+    Sub('particles_roundtrip', execute, strategy=strategy, fixed=fixed, quick=480, thorough=8000, floor=100, quick_shards=16,
         must_hit=('drive:list', 'drive:values', 'drive:gen', 'children', 'array', 'name:mixed_case', 'system_options',
                   'file:sample.pcf', 'fmt:1', 'fmt:2')
         + tuple('cat:' + c for c in CATEGORIES) + tuple('type:' + t for t in ARRAY_TYPES)),
